@@ -225,6 +225,34 @@ fn main() {
         t
     });
 
+    // S3b: cancellation: (c + tiny) + (-c): the exact sum is the tiny part, which must be rounded to p digits
+    run.par("S3b context sums with cancelling leading digits", 100, |gi| {
+        let g = gi as i128 + 1;
+        let mut t = Tally::default();
+        for c in bigs.iter() {
+            for tiny in [1i64, -1, 4567, -4567, 95, 149995] {
+                let tv = Dec::new(tiny, c.s + g + 3);
+                let a = c.add(&tv);
+                let b = c.neg();
+                let (xa, xb) = (bd(&a), bd(&b));
+                t.states += 1;
+                for p in [1u64, 2, 3, 5, 8, 25] {
+                    for m in MODES {
+                        for (e, swap) in [("Context::add_refs", false), ("Context::add_refs_into", true)] {
+                            t.transitions += 1;
+                            t.nontrivial += 1;
+                            let v = if swap { check_sum(e, &b, &a, &xb, &xa, p, m) } else { check_sum(e, &a, &b, &xa, &xb, p, m) };
+                            if let Some(v) = v {
+                                run.report(v);
+                            }
+                        }
+                    }
+                }
+            }
+        }
+        t
+    });
+
     // S4: long operands x p in {1, 2, l-1, l, l+1, l+5} and around 9-runs / ties
     let lens: &[usize] = if tier.is_thorough() { &LONG_LENS_THOROUGH } else { &LONG_LENS_QUICK };
     let mut longs: Vec<Dec> = vec![];
@@ -258,7 +286,7 @@ fn main() {
         t
     });
     // S5: sparse tails behind the p-th digit
-    let tail_lens: Vec<usize> = if tier.is_thorough() { (0..=72).chain([100, 127, 128, 129]).collect() } else { (0..=40).chain([63, 64, 65]).collect() };
+    let tail_lens: Vec<usize> = if tier.is_thorough() { (0..=72).chain([100, 127, 128, 129, 255, 256, 257, 1023, 1024, 1025, 1100, 1500, 2100, 4100]).collect() } else { (0..=40).chain([63, 64, 65, 257, 1100, 1500]).collect() };
     let tails = sparse_tails(&tail_lens);
     run.bound("S5_tail_lengths", json!(tail_lens));
     run.par("S5 sparse tails (one non-zero digit at every position)", tails.len(), |i| {
